@@ -258,11 +258,15 @@ func c16ParseTrace(log, dir string) *c16Trace {
 			}
 			if c16FdCalls[c.Name] {
 				// only the descriptor's decoded path counts (a data buffer may quote anything)
-				if f := c16FdRe.FindStringSubmatch(c.Args); f != nil && strings.HasPrefix(f[2], prefix) {
+				// (the directory itself counts too: an implementation may sync it after the rename)
+				if f := c16FdRe.FindStringSubmatch(c.Args); f != nil && (strings.HasPrefix(f[2], prefix) || f[2] == dir) {
 					c.Paths = append(c.Paths, strings.TrimSuffix(f[2], " (deleted)"))
 				}
 			} else {
 				a := c.Args
+				if strings.Contains(a, `"`+dir+`"`) {
+					c.Paths = append(c.Paths, dir)
+				}
 				for {
 					i := strings.Index(a, `"`+prefix)
 					if i < 0 {
